@@ -73,7 +73,7 @@ mod verif_probe_voting_topn_c17 {
         }
         eprintln!("PROBE cases={} nontrivial={}", cases, nontrivial);
         for f in failures.iter().take(20) { eprintln!("{}", f); }
-        assert!(nontrivial > 500, "PROBE generator degenerate");
         assert!(failures.is_empty(), "PROBE found {} failing inputs; first: {}", failures.len(), failures[0]);
+        assert!(nontrivial > 500, "PROBE generator degenerate");
     }
 }
